@@ -15,17 +15,27 @@ use std::{
 };
 
 /// A concurrent iterator over an array, consuming the array and yielding its elements.
-#[derive(Debug)]
 pub struct ConIterOfArray<const N: usize, T: Send + Sync> {
     array: UnsafeCell<ManuallyDrop<[T; N]>>,
     counter: AtomicCounter,
+    /// Position of the first element which is skipped, and hence never yielded, due to `skip_to_end`; `usize::MAX` if none.
+    skipped_from: AtomicCounter,
+}
+
+impl<const N: usize, T: Send + Sync> std::fmt::Debug for ConIterOfArray<N, T> {
+    fn fmt(&self, f: &mut std::fmt::Formatter<'_>) -> std::fmt::Result {
+        f.debug_struct("ConIterOfArray")
+            .field("array", &self.array)
+            .field("counter", &self.counter)
+            .finish()
+    }
 }
 
 impl<const N: usize, T: Send + Sync> Drop for ConIterOfArray<N, T> {
     fn drop(&mut self) {
-        let current = self.counter().current();
-        if current <= N {
-            let _remaining_vec_to_be_dropped = unsafe { self.split_off_right(current) };
+        let begin = self.counter().current().min(self.skipped_from.current());
+        if begin <= N {
+            let _remaining_vec_to_be_dropped = unsafe { self.split_off_right(begin) };
         }
     }
 }
@@ -36,6 +46,7 @@ impl<const N: usize, T: Send + Sync> ConIterOfArray<N, T> {
         Self {
             array: ManuallyDrop::new(array).into(),
             counter: AtomicCounter::new(),
+            skipped_from: super::vec::no_skip(),
         }
     }
 
@@ -124,7 +135,12 @@ impl<const N: usize, T: Send + Sync> AtomicIter<T> for ConIterOfArray<N, T> {
     }
 
     fn early_exit(&self) {
-        self.counter().store(N)
+        // advancing by the length ends the iteration as storing the length does,
+        // and additionally tells which elements are not reserved by any pull
+        let first_skipped = self.counter().fetch_and_add(N);
+        if first_skipped < N {
+            self.skipped_from.store(first_skipped);
+        }
     }
 }
 
@@ -184,9 +200,12 @@ impl<const N: usize, T: Send + Sync> ConcurrentIter for ConIterOfArray<N, T> {
     /// }
     /// ```
     fn into_seq_iter(self) -> Self::SeqIter {
-        let current = self.counter().current();
-        let remaining_vec = unsafe { self.split_off_right(current.min(N)) };
-        // all elements are moved out either to the callers or to `remaining_vec`; nothing is left to drop
+        let current = self.counter().current().min(N);
+        let begin = current.min(self.skipped_from.current());
+        let mut skipped_vec = unsafe { self.split_off_right(begin) };
+        // elements skipped by `skip_to_end` are dropped rather than yielded
+        let remaining_vec = skipped_vec.split_off(current - begin);
+        // all elements are moved out either to the callers or to the two vectors; nothing is left to drop
         std::mem::forget(self);
         remaining_vec.into_iter()
     }
